@@ -36,7 +36,10 @@ CODES = {1: "model of get_solution/slim_optimize and implementation differ on th
          8: "slim_optimize value / error value / exception does not match the true verdict",
          9: "exact oracle certificate rejected (harness fault)",
          10: "reaction.flux / reduced_cost / metabolite.shadow_price differ from the Solution",
-         11: "a returned Solution changed after later edits / optimisations"}
+         11: "a returned Solution changed after later edits / optimisations",
+         12: "the objective coefficients the model reports (Reaction.objective_coefficient) are not the objective that was "
+             "set and that the solver optimises: objective value and reduced costs are then statements about another "
+             "objective"}
 THEOREMS = ("C04_optimize_sound, C04_reduced_costs, C04_slim_error_value, C04_certificates, "
             "C04_shadow_prices_certify (coq/theories/Properties/C04.v)")
 RULE = ("random stoichiometric networks (harness/gennet.py: 2-6 metabolites, 3-9 reactions from motifs, bounds incl. "
@@ -186,7 +189,13 @@ def case_term(case):
         gennet.coq_net(net), oracle, raw, solt, s_def, gennet.q(F(float(ev))), s_ev, s_none,
         "true" if acc_ok else "false", "true" if snap_ok else "false")
     has_obj = any(F(r["obj"]) != 0 for r in net["rxns"])
-    return term, {"obs": obs, "nontrivial": has_obj,
+    reported = {r["id"]: float(m.reactions.get_by_id(r["id"]).objective_coefficient) for r in net["rxns"]}
+    wanted = {r["id"]: float(F(r["obj"])) for r in net["rxns"]}
+    py = []
+    if reported != wanted:
+        py = [12]
+        obs["objective_reported"], obs["objective_set"] = reported, wanted
+    return term, {"obs": obs, "nontrivial": has_obj, "py_codes": py,
                   "stats": {"verdict": o[0], "solver": solver, "n_rxns": len(net["rxns"]), "dir": net["dir"],
                             "status": st}}
 
